@@ -13,8 +13,18 @@ use ops::HistCase;
 /// Run one history and judge it for property `prop`. Violations of rules that do not speak for
 /// `prop` end the judgement of the case (the model may be out of step afterwards) and are only counted.
 pub fn run_for(prop: &'static str, case: &HistCase, epoll_each_step: bool) -> (Facts, Option<Violation>, Option<Violation>) {
-    let trace = world::run_history(case, world::Opts { epoll_each_step });
-    let judged = Monitor::judge_for(&trace, prop);
+    run_for_fault(prop, case, epoll_each_step, None).0
+}
+
+/// Like `run_for`, with the fault site number `fault_at` failing; also returns the number of fault sites passed.
+pub fn run_for_fault(prop: &'static str, case: &HistCase, epoll_each_step: bool, fault_at: Option<u32>) -> ((Facts, Option<Violation>, Option<Violation>), u32) {
+    let trace = world::run_history(case, world::Opts { epoll_each_step, fault_at });
+    let sites = trace.iter().rev().find_map(|e| if let trace::Ev::FaultSites { n } = e { Some(*n) } else { None }).unwrap_or(0);
+    (judge_trace(prop, &trace), sites)
+}
+
+fn judge_trace(prop: &'static str, trace: &[trace::Ev]) -> (Facts, Option<Violation>, Option<Violation>) {
+    let judged = Monitor::judge_for(trace, prop);
     if std::env::var("VERIF_TRACE").is_ok() && (judged.violation.is_some() || std::env::var("VERIF_TRACE").as_deref() == Ok("all")) {
         for (i, e) in trace.iter().enumerate() {
             eprintln!("{i:4} {e:?}");
